@@ -46,6 +46,7 @@ type c03Table struct {
 	MapThis string            `json:"map_this"` // AddMap(this) on top of the chain, "" = none
 	Value   bool              `json:"value"`    // the table of value.New().GetParser()
 	Decls   []c03Decl         `json:"decls,omitempty"` // the table is built through the funcGen API with these declarations; Ops is the PROMISED order
+	Comfort bool              `json:"comfort,omitempty"` // Parser.Comfort(true): implicit multiplication
 }
 
 // one declaration of a binary operator through the generator API
@@ -107,6 +108,9 @@ func (t *c03Table) funcGenParser() *parser2.Parser[string] {
 	p := g.GetParser()
 	if len(t.Alias) > 0 {
 		p.TextOperator(t.Alias)
+	}
+	if t.Comfort {
+		p.Comfort(true)
 	}
 	return p
 }
@@ -174,6 +178,9 @@ func (t *c03Table) parser() *parser2.Parser[string] {
 	p.Unary(t.Unary...)
 	if len(t.Alias) > 0 {
 		p.TextOperator(t.Alias)
+	}
+	if t.Comfort {
+		p.Comfort(true)
 	}
 	return p
 }
@@ -595,6 +602,133 @@ func (r *Rng) c03Text(t *c03Table, toks []c03Tok) string {
 	return b.String()
 }
 
+// ---- comfort mode (Parser.Comfort(true)): the text of a token list with multiplication signs LEFT OUT.
+// The generator's own bookkeeping of what the scanner does (token.go run(): lastTokenType is number / identifier / ')'
+// behind such a lexeme and nothing behind any other; blanks keep it; a sign is sent in front of a number or an
+// identifier when it is set, in front of '(' when it is number or ')' or - only with a blank in between - identifier).
+// A binary * is left out with probability omitP where the scanner puts it back; a call f(x) is written tight.
+// admissible = false: the text reads as another token stream whatever the layout (call of a parenthesised, called or
+// numeric callee: "(f)(x)", "f(x)(y)", "2(x)" are products in comfort mode).
+func (r *Rng) c03ComfortText(t *c03Table, toks []c03Tok, omitP float64) (text string, omitted int, tight int, admissible bool) {
+	var b strings.Builder
+	prevWord, prevOp, prevNum := false, false, false
+	const (
+		ltNone = iota
+		ltNum
+		ltIdent
+		ltClose
+	)
+	lt, pend, first := ltNone, false, true
+	admissible = true
+	for i, tk := range toks {
+		img := tk.Img
+		word, op, num, plainIdent := false, false, false, false
+		switch tk.Typ {
+		case c03ttIdent:
+			if !tk.Q && c03IsWordy(img) && !(img[0] >= '0' && img[0] <= '9') {
+				word, plainIdent = true, true
+			} else {
+				img = "'" + img + "'"
+			}
+		case c03ttNumber:
+			word, num = true, true
+		case c03ttString:
+			img = "\"" + img + "\""
+		case c03ttOperate:
+			op = true
+			for w, o := range t.Alias {
+				if o == img && r.Chance(0.5) {
+					img, word, op = w, true, false
+					break
+				}
+			}
+		case c03ttKeyWord:
+			word = true
+		}
+		if tk.Typ == c03ttOperate && op && tk.Img == "*" && !pend && lt != ltNone && i+1 < len(toks) && r.Chance(omitP) {
+			if n := toks[i+1].Typ; n == c03ttIdent || n == c03ttNumber || n == c03ttOpen {
+				pend = true
+				omitted++
+				continue
+			}
+		}
+		sep := r.Chance(0.4)
+		if first {
+			sep = r.Chance(0.1)
+		}
+		forced := (prevWord && word) || (prevOp && op) || (prevNum && tk.Typ == c03ttDot)
+		if prevNum && plainIdent && img[0] != 'e' {
+			forced = false // 2a: the number scanner stops in front of a letter other than e
+		}
+		if forced {
+			sep = true
+		}
+		ins := false
+		switch tk.Typ {
+		case c03ttIdent, c03ttNumber:
+			ins = lt != ltNone
+		case c03ttOpen:
+			if lt == ltIdent {
+				sep = pend // a (b) is the product, a(b) the call
+				ins = pend
+			} else {
+				ins = lt == ltNum || lt == ltClose
+			}
+		}
+		if ins != pend {
+			admissible = false
+		}
+		if pend && !sep {
+			tight++
+		}
+		pend = false
+		if sep {
+			b.WriteString(" ")
+		}
+		b.WriteString(img)
+		first = false
+		prevWord, prevOp, prevNum = word, op, num
+		switch tk.Typ {
+		case c03ttIdent:
+			lt = ltIdent
+		case c03ttNumber:
+			lt = ltNum
+		case c03ttClose:
+			lt = ltClose
+		default:
+			lt = ltNone
+		}
+	}
+	if pend {
+		admissible = false
+	}
+	return b.String(), omitted, tight, admissible
+}
+
+// an expression tree for the comfort family: products are boosted, callees are mostly function names
+func (r *Rng) c03ComfortExpr(t *c03Table, depth int) *c03Rt {
+	star := -1
+	for i, o := range t.Ops {
+		if o == "*" {
+			star = i
+		}
+	}
+	tree := r.c03Expr(t, depth)
+	tree.walk(func(n *c03Rt) {
+		switch n.K {
+		case "bin":
+			if star >= 0 && r.Chance(0.5) {
+				n.J = star
+			}
+		case "call":
+			if n.L.K != "ident" && r.Chance(0.85) {
+				n.L = &c03Rt{K: "ident", S: []string{"f", "sin", "a"}[r.Pick(3)]}
+			}
+		}
+	})
+	return tree
+}
+
 // ---- the tree the generator expects, in the hook's dump format (computed here, not by the model)
 
 func (t *c03Table) identKind(name string) string {
@@ -660,6 +794,8 @@ type c03Case struct {
 	Cert    *c03Rt   `json:"cert,omitempty"` // kind 0: rendering tree
 	Want    []c03Tok  `json:"want_tokens,omitempty"`
 	Note    string    `json:"note,omitempty"`
+	// comfort-mode family: the same tokens written with every multiplication sign (parsed too and compared)
+	Explicit string `json:"explicit,omitempty"`
 }
 
 type c03Runner struct {
@@ -712,6 +848,7 @@ func (cr *c03Runner) run(c *c03Case) {
 	var fragAst parser2.AST
 	actualOps := t.Ops
 	outcome := "ok"
+	src, explicitDump := "None", ""
 	func() {
 		defer func() {
 			if rec := recover(); rec != nil {
@@ -738,6 +875,22 @@ func (cr *c03Runner) run(c *c03Case) {
 		p := t.parser()
 		actualOps, _, _, _ = p.VerifParseConfig()
 		toks = p.VerifParseTokens(c.Text)
+		if t.Comfort {
+			ops, to, kw, cm, cf := p.VerifTokenizerConfig()
+			var tl []string
+			for w, o := range to {
+				tl = append(tl, "("+CoqStr(w)+", "+CoqStr(o)+")")
+			}
+			sort.Strings(tl)
+			src = fmt.Sprintf("(Some (mkSrc %s %s %s %s %s %s))", CoqStr(c.Text), c03CoqStrs(ops), CoqList(tl), c03CoqStrs(kw), CoqBool(cm), CoqBool(cf))
+			if c.Explicit != "" {
+				if ast2, err2 := p.Parse(c.Explicit, t.idents(c.WithMap)); err2 != nil {
+					explicitDump = "error: " + err2.Error()
+				} else {
+					explicitDump = parser2.VerifParseDump(ast2, c03StrConst)
+				}
+			}
+		}
 		ast, err := p.Parse(c.Text, t.idents(c.WithMap))
 		if err != nil {
 			outcome = "error"
@@ -784,11 +937,19 @@ func (cr *c03Runner) run(c *c03Case) {
 		}
 		hist = append(hist, "("+CoqStr(anchor)+", "+CoqStr(d.Op)+")")
 	}
-	cr.cw.Add(fmt.Sprintf("(%d, mkIn %s %s %s %s %d %s %s %s, %s)", id, c03CoqStrs(t.Ops), c03CoqStrs(t.Unary), ids, CoqList(tl), c.Kind, cert,
-		c03CoqStrs(actualOps), CoqList(hist), obs))
+	cr.cw.Add(fmt.Sprintf("(%d, mkIn %s %s %s %s %d %s %s %s %s, %s)", id, c03CoqStrs(t.Ops), c03CoqStrs(t.Unary), ids, CoqList(tl), c.Kind, cert,
+		c03CoqStrs(actualOps), CoqList(hist), src, obs))
+
 
 	sig := ""
 	human := map[string]any{"text": c.Text, "ops": t.Ops, "unary": t.Unary, "kind": kindName, "observed": outcome + ": " + dump, "repro": c, "note": c.Note}
+	if t.Comfort {
+		human["comfort"] = true
+		if c.Explicit != "" {
+			human["explicit_text"] = c.Explicit
+			human["explicit_observed"] = explicitDump
+		}
+	}
 	viol := func(what, s, exp string) {
 		sig = s
 		human["signature"] = s
@@ -816,6 +977,8 @@ func (cr *c03Runner) run(c *c03Case) {
 			viol("a rendering of an expression tree was rejected", "rejected:"+c03FirstDiff(want, ""), want)
 		} else if dump != want {
 			viol("the AST differs from the tree that was written", "regroup:"+c03FirstDiff(want, dump), want)
+		} else if c.Explicit != "" && explicitDump != dump {
+			viol("comfort mode: the text with multiplication signs left out and the explicit text parse differently", "comfort-differs:"+c03FirstDiff(explicitDump, dump), explicitDump)
 		}
 	case c.Kind == 1 || c.Kind == 3:
 		if outcome == "ok" && !c03Balanced(toks) {
@@ -1613,6 +1776,60 @@ func cmdC03(seed int64, tier, outDir string) {
 				c, _ := cr.rendering(r, t, tree, mode, false)
 				c.Note = "table built through the funcGen API; " + c.Note
 				cr.run(c)
+			}
+		}
+	}
+
+	// comfort mode (Parser.Comfort(true)): the renderings written with multiplication signs left out at a random subset
+	// of the positions where the scanner puts them back, lexemes tight or spaced; the real tokenizer must deliver the
+	// EXPLICIT tokens of the tree (Go oracle and c03_is), the tokenizer model the same tokens (c03_im), the AST must be
+	// the tree's and equal to the AST of the explicit text
+	ctables, cexprs := 14, 4
+	if tier == "thorough" {
+		ctables, cexprs = 250, 10
+	}
+	rc := NewRng(seed + 700)
+	for ti := 0; ti < ctables*optBoost; ti++ {
+		t := rc.c03Table()
+		t.Comfort = true
+		hasStar := false
+		for _, o := range t.Ops {
+			hasStar = hasStar || o == "*"
+		}
+		if !hasStar {
+			at := rc.Pick(len(t.Ops) + 1)
+			t.Ops = append(append(append([]string{}, t.Ops[:at]...), "*"), t.Ops[at:]...)
+		}
+		for e := 0; e < cexprs; e++ {
+			tree := rc.c03ComfortExpr(t, 2+rc.Pick(5))
+			for _, mode := range []int{c03ModeMin, c03ModeRand} {
+				rt := rc.c03Render(t, tree, mode)
+				var toks []c03Tok
+				t.flatten(rt, &toks)
+				omitP := []float64{1, 0.6, 0.3}[rc.Pick(3)]
+				text, omitted, tight, adm := rc.c03ComfortText(t, toks, omitP)
+				explicit, _, _, _ := rc.c03ComfortText(t, toks, 0)
+				ascii := true
+				for _, ch := range text + explicit {
+					ascii = ascii && ch < 128
+				}
+				if !ascii {
+					sum.Skipped["comfort text with non-ASCII runes (the run models the ASCII letter/digit classes)"]++
+					continue
+				}
+				sum.Count("comfort_signs_left_out", bucket(omitted))
+				sum.Count("comfort_tight_products", bucket(tight))
+				if adm {
+					sum.Count("comfort_text", "reads back to the written tokens")
+					if omitted > 0 {
+						sum.Count("comfort_text", "... with at least one sign left out")
+					}
+					cr.run(&c03Case{Table: t, Text: text, Kind: 0, Cert: rt, Want: toks, Explicit: explicit,
+						Note: fmt.Sprintf("comfort mode, %d multiplication signs left out", omitted)})
+				} else {
+					sum.Count("comfort_text", "reads as another token stream (call of a parenthesised / called / numeric callee)")
+					cr.run(&c03Case{Table: t, Text: text, Kind: 1, Note: "comfort mode, inadmissible text: a call reads as a product"})
+				}
 			}
 		}
 	}
